@@ -223,6 +223,29 @@ func (fv *FuncVC) havoc(ms *modSet, tag string) {
 	st.ghost["alloc"] = na
 }
 
+// rangeLen finds, for a range-over-slice loop, the length the hidden index
+// is compared with in the loop header (available to invariants as `rangelen`).
+func (fv *FuncVC) rangeLen(h *ssa.BasicBlock) (ssa.Value, bool) {
+	for _, in := range h.Instrs {
+		if b, ok := in.(*ssa.BinOp); ok && b.Op == token.LSS {
+			if add, ok := b.X.(*ssa.BinOp); ok && add.Op == token.ADD {
+				if ph, ok := add.X.(*ssa.Phi); ok && ph.Comment == "rangeindex" {
+					return b.Y, true
+				}
+			}
+		}
+	}
+	return nil, false
+}
+
+func (fv *FuncVC) bindRangeLen(env *Env, h *ssa.BasicBlock) {
+	if v, ok := fv.rangeLen(h); ok {
+		if val, ok := fv.vals[v]; ok {
+			env.names["rangelen"] = val
+		}
+	}
+}
+
 func (fv *FuncVC) loopSpec(h *ssa.BasicBlock) *LoopSpec {
 	if fv.C == nil {
 		return nil
@@ -248,6 +271,7 @@ func (fv *FuncVC) loopHeader(b *ssa.BasicBlock, phis []*ssa.Phi, entryVal func(*
 	}
 	if spec != nil {
 		env := fv.newEnv(fv.cur, fv.entry)
+		fv.bindRangeLen(env, b)
 		for k, v := range entry {
 			env.names[k] = v
 		}
@@ -275,6 +299,7 @@ func (fv *FuncVC) loopHeader(b *ssa.BasicBlock, phis []*ssa.Phi, entryVal func(*
 	}
 	if spec != nil {
 		env := fv.newEnv(fv.cur, fv.entry)
+		fv.bindRangeLen(env, b)
 		for _, ph := range phis {
 			env.names[phiName(ph)] = fv.vals[ph]
 		}
@@ -325,6 +350,7 @@ func (fv *FuncVC) backEdge(p, h *ssa.BasicBlock, succIdx int) {
 	saveReach := fv.curReach
 	fv.curReach = fv.edgeReach2(p, h)
 	env := fv.newEnv(fv.cur, fv.entry)
+	fv.bindRangeLen(env, h)
 	for _, in := range h.Instrs {
 		ph, ok := in.(*ssa.Phi)
 		if !ok {
